@@ -5,28 +5,10 @@ from . import io_rules as io
 from . import io_rules2 as io2
 from .config_rules import check_unit_library
 
-EXPLANATION = (
-    "Static rules on src/osyris/io and config/defaults.py: (R1) the record locator read_binary_data is interpreted in a "
-    "polynomial domain: position = sum(count*size) + 8*records (+4), counters advanced as documented, for every "
-    "skip_head/increment/type combination; (R2) every reader's read_header is interpreted with symbolic counters: each "
-    "decoded field sits at the payload start of the record the RAMSES layout (S1) assigns to it and the header length "
-    "equals the layout's, for all ncpu, levelmax, nboundary (both branches), noutput, coarse grid and key size; (R3) per "
-    "(level, domain) block and reader class: owner mode (allocate, cache-line header, 2^ndim x read_variables, footer), "
-    "with every variable read or skipped, consumes the layout's bytes and reads xg/son/variables at the layout's records; "
-    "step_over consumes the same bytes; (R4) Loader.load's protocol skeleton: order, loops and guards of every reader call "
-    "(owner guard domain == cpu_num-1), loop bounds, file names; (R5) leaf rule truth table; (R6) one conjunction mask "
-    "applied to every read variable, leaf mask always included; (R7) values scaled by X.magnitude and labelled X.units of "
-    "the same library entry at every site; (R8) the unit library is evaluated in a dimension domain: every entry has the "
-    "dimension its name states and the coherent factor unit_d^p unit_l^(3p+q) unit_t^r (sqrt(4 pi) for Gaussian B); (R9) "
-    "cell geometry formulas (child offsets over all 8 children, dx, position, level, cpu) as exact identities; (R10) axis "
-    "order of the grid-count table; (R11) vector assembly folded over name sets; derived variables.")
-NOT_DECIDED = ("that pint attaches the right factor to a unit string; that np.concatenate preserves order; float rounding; "
-               "malformed files; nout=-1 directory globbing; ordering types that write more than one bound_key record (A2)")
-TRUSTED = ("CPython ast", "S1 RAMSES layout (sa/specs/ramses_layout.py), cross-validated against a from-spec synthetic output",
-           "S2 dimension tables", "struct/Fortran record sizes")
-TECHNIQUE = ("static analysis: abstract interpretation of the readers' byte-offset bookkeeping in a polynomial domain against a "
-             "layout specification; protocol skeleton extraction; dimension-domain evaluation of the unit library; finite-case "
-             "folding of the leaf rule, child offsets and vector assembly")
+EXPLANATION = "Folds (the repository's own functions and classes interpreted by sa/models.py::ModelEval over abstract tokens) and symbolic analyses: (R1) read_binary_data interpreted with symbolic counters: byte position = sum(count*size)+8*records(+4), counters advanced; (R2/R9) AmrReader/Hydro/Grav/Rt.read_header interpreted on a symbolic file: every decode is aligned BY BYTE POSITION (exact polynomials in ncpu, levelmax, nboundary, noutput, nx*ny*nz) with the record of the layout specification S1 it hits, header length equals S1, decoded fields end up in the right places (xbound per axis, grid counts per (level, cpu) transposed, boundary rows); (R3) one (level, domain) block in owner mode and step_over for every mesh reader: decodes aligned, block length equal for read / not-read variables and step_over; (R4/R6) Loader.load interpreted with recording reader models over 9 scenarios and a two-load history, compared with the traversal specification (per-reader record sequence, file names, offsets zeroed per file, one conjunction mask per block, pieces, counters); (R5) leaf flag over {has a son} x {below / at the deepest loaded level}; (R7) every buffer is filled from its own record times the magnitude of its own unit and labelled with that unit; (R8) configure_units evaluated in the dimension domain D2 against S2; (R11) make_vector_arrays over 12 name-set cases; additional_variables over 4 input sets; (R12) reader.initialize histories (on / off / files gone) with file-system models: files looked up under the resolved output directory also for nout=-1."
+NOT_DECIDED = 'the values numpy/struct decode; floating-point rounding; descriptors with a single variable; layouts other than S1 (non-Hilbert orderings with more than one bound_key record); parametric ndim (folds use ndim=3 for bodies, 2 for initialisation)'
+TRUSTED = ('CPython ast', 'S1 RAMSES layout (sa/specs/ramses_layout.py)', 'S2 unit dimensions (sa/specs/dims.py)', 'the interpreter sa/models.py and its numpy/struct/os models', 'pint/numpy behave as documented')
+TECHNIQUE = 'static analysis: abstract interpretation of the reader classes over a symbolic file (exact polynomial byte positions, record alignment against a layout specification), finite-scenario folding of the loader protocol, dimension-domain evaluation'
 
 from . import loader_folds as lfold
 from . import io_folds as iof
